@@ -53,8 +53,8 @@ class CDSInterval(AbstractFeatureInterval):
     ):
 
         self._location = self.initialize_location(cds_starts, cds_ends, strand, parent_or_seq_chunk_parent)
-        self._genomic_starts = cds_starts
-        self._genomic_ends = cds_ends
+        self._genomic_starts = list(cds_starts)
+        self._genomic_ends = list(cds_ends)
         self.start = cds_starts[0]
         self.end = cds_ends[-1]
         self._strand = strand
@@ -80,7 +80,7 @@ class CDSInterval(AbstractFeatureInterval):
                 raise MismatchedFrameException("Cannot mix frame and phase")
 
         if is_frame:
-            self.frames = frames_or_phases
+            self.frames = list(frames_or_phases)
         else:
             self.frames = [x.to_frame() for x in frames_or_phases]
 
